@@ -242,6 +242,9 @@ type c05Win struct {
 	DwellUs int  `json:"dwell_us"`
 	Reps    int  `json:"reps"`
 	Reentry bool `json:"reentrant_producer,omitempty"` // the source's next value is issued from a window's completion callback
+	// EndRacing: the source goroutine issues the terminal itself, racing with the
+	// boundary ticks (otherwise the terminal comes after both goroutines are done)
+	EndRacing bool `json:"end_racing_with_ticks,omitempty"`
 }
 
 func init() {
@@ -320,6 +323,14 @@ func c05RunWin(t rt.TB, c c05Win) {
 				for i := 1; i <= c.N; i++ {
 					emitNext()
 				}
+				if c.EndRacing {
+					switch c.End {
+					case 'C':
+						src.Emit(rt.C())
+					case 'E':
+						src.Emit(rt.E(1))
+					}
+				}
 			}()
 			go func() {
 				defer wg.Done()
@@ -331,11 +342,13 @@ func c05RunWin(t rt.TB, c c05Win) {
 			close(start)
 			wg.Wait()
 		}
-		switch c.End {
-		case 'C':
-			src.Emit(rt.C())
-		case 'E':
-			src.Emit(rt.E(1))
+		if !c.EndRacing || c.Reentry {
+			switch c.End {
+			case 'C':
+				src.Emit(rt.C())
+			case 'E':
+				src.Emit(rt.E(1))
+			}
 		}
 		mu.Lock()
 		ws := append([]*rt.Recorder[int](nil), wins...)
@@ -364,6 +377,11 @@ func c05RunWin(t rt.TB, c c05Win) {
 			return
 		}
 		if c.End != 0 {
+			if outer.Trace().End == 0 {
+				rt.Report(t, rt.Failure{Property: "C05", Check: "concurrent-windows", Op: "WindowWhen", Class: "terminal-not-propagated", Msg: where + ": the source ended, the stream of windows did not", Case: c})
+				sub.Unsubscribe()
+				return
+			}
 			for i, w := range ws {
 				if w.Trace().End == 0 {
 					rt.Report(t, rt.Failure{Property: "C05", Check: "concurrent-windows", Op: "WindowWhen", Class: "window-left-open", Msg: fmt.Sprintf("%s: window #%d is still open after the source ended", where, i), Case: c})
@@ -391,8 +409,9 @@ func TestC05_ConcurrentWindows(t *testing.T) {
 	rapid.Check(t, func(t *rapid.T) {
 		c := c05Win{N: rapid.IntRange(1, 6).Draw(t, "n"), Ticks: rapid.IntRange(1, 4).Draw(t, "ticks"), End: rapid.SampledFrom([]byte{'C', 'E', 0}).Draw(t, "end"),
 			DwellUs: rapid.SampledFrom([]int{0, 0, 20}).Draw(t, "dwell"), Reentry: rapid.IntRange(0, 3).Draw(t, "reentry") == 0, Reps: reps}
+		c.EndRacing = !c.Reentry && c.End != 0 && rapid.Bool().Draw(t, "endRacing")
 		c05RunWin(t, c)
-		rt.Case(caseKey("concwin", c.N, c.Ticks, c.End, c.DwellUs, c.Reentry), c.N >= 2, "concurrent:windows", func() any { return c })
+		rt.Case(caseKey("concwin", c.N, c.Ticks, c.End, c.DwellUs, c.Reentry, c.EndRacing), c.N >= 2, "concurrent:windows", func() any { return c })
 	})
 }
 
